@@ -19,6 +19,16 @@ FIRST_MISS = {
  "C17-r2m1": "step must be the exact quotient when it is representable; rates r with r*(1/r) != 1 added",
  "C17-r2m3": "sample rates below 1 added",
  "C07-r2m3": "lock-step bus model with drop/attach between rounds; heap clause judged even after a C13 rejection",
+ "C03-r3m2": "channel iterators driven through nth / skip / step_by / rev / last / count (Frames.tla iterator model)",
+ "C04-r3m1": "i32 / u32 / i64 frame sorts (values beyond the float mantissa) added to the term builder and generators",
+ "C05-r3m3": "clone consumers (il_clone / ue_clone / take_clone) and `clone` events added",
+ "C17-r3m1": "frequency source that reports exhaustion while still yielding frequencies",
+ "C18-r3m3": "i32 frames (more than 24 significant bits) added to the sinc drivers",
+ "C19-r3m2": "envelope adaptor over a finite source read past its end",
+ "C19-r3m3": "negative-zero attack / release times (constructor and setters)",
+ "C20-r3m2": "Windower driven through nth / skip / step_by (Window.tla NthAfter)",
+ "C20-r3m3": "direct evaluation of the window functions at given phases (1.0 and outside [0,1] included)",
+ "C09-r3m1": "nodes without buffers anywhere in random graphs (counted per incoming edge when they are inputs)",
 }
 rows = []
 for d in sorted(glob.glob(os.path.join(V, "seeded/C*"))):
